@@ -187,12 +187,11 @@ func classifyLoop(c *Ctx, l loopInfo) (kind string, regular bool, detail string)
 					for b := range l.body {
 						for _, in := range b.Instrs {
 							if ci, ok := in.(ssa.CallInstruction); ok {
-								switch core.CalleeName(ci.Common()) {
-								case heapPop:
-									if b == h.Succs[0] || b.Dominates(lastBackEdgeSource(l)) {
-										pop = true
-									}
-								case heapPush:
+								pp, ps := heapEffect(c, ci)
+								if pp && (b == h.Succs[0] || b.Dominates(lastBackEdgeSource(l))) {
+									pop = true
+								}
+								if ps {
 									push = true
 								}
 							}
@@ -242,6 +241,34 @@ func classifyLoop(c *Ctx, l loopInfo) (kind string, regular bool, detail string)
 }
 
 func isPhiPlus(v ssa.Value, ph *ssa.Phi) bool { return v == ssa.Value(ph) }
+
+// heapEffect classifies a call inside a loop body: a direct heap.Pop / heap.Push, or a private helper that pops on every
+// path (pop) / contains a push anywhere in its region (push).
+func heapEffect(c *Ctx, ci ssa.CallInstruction) (pop, push bool) {
+	switch core.CalleeName(ci.Common()) {
+	case heapPop:
+		return true, false
+	case heapPush:
+		return false, true
+	}
+	h := ci.Common().StaticCallee()
+	if h == nil || !c.P.PrivateHelper(h) {
+		return false, false
+	}
+	for _, g := range c.P.Region(h) {
+		for _, hc := range core.Calls(g) {
+			switch core.CalleeName(hc.Common()) {
+			case heapPop:
+				if g == h && postDominatesEntry(h, hc.Block()) {
+					pop = true
+				}
+			case heapPush:
+				push = true
+			}
+		}
+	}
+	return pop, push
+}
 
 func lastBackEdgeSource(l loopInfo) *ssa.BasicBlock {
 	var last *ssa.BasicBlock
